@@ -6,6 +6,7 @@ import JominiModel.Proofs.TextTapeCut
 import JominiModel.Proofs.TextTapeInv
 import JominiModel.Proofs.TextTapeScalars
 import JominiModel.Proofs.TextTapeFaithful
+import JominiModel.Proofs.TextTapeTotal
 import JominiModel.Generated.Tables
 /-
 C01 — Text tape mirrors the document's structure regardless of layout.
@@ -55,14 +56,21 @@ example : Blank [32, 59, 13, 10, 35, 99, 123, 10, 9] :=
 
 /-- an optional UTF-8 BOM only sets the flag: the tape (scalar bytes and their positions, which
 the model keeps relative to the end of the input) is the tape of the rest.
-Hypotheses: `d` does not itself start with a second BOM, and the parse of `d` does not hit a
-panic site (the only use is `offset - 1` at offset 0, which shifts with the BOM). -/
-theorem C01_bom (d : Bytes) (hb : hasBom d = false) (hp : parse d ≠ .panic) :
+Hypothesis: `d` does not itself start with a second BOM (only the first one is stripped). -/
+theorem C01_bom (d : Bytes) (hb : hasBom d = false) :
     parse (0xef :: 0xbb :: 0xbf :: d) = (parse d).withBom true :=
-  parse_bom d hb hp
+  parse_bom' d hb
 
 /-- `a=b` -/
-example : hasBom [97, 61, 98] = false ∧ parse [97, 61, 98] ≠ .panic := by decide +kernel
+example : hasBom [97, 61, 98] = false := by decide +kernel
+
+/-- the model is total on every input: it returns a tape or an error — none of its explicit
+panic outcomes (`len()-1`, `offset-1`, `tape[i]`, `split_at`, `&d[1..]`) is reachable and the
+fuel `2|d|+4` is enough (every iteration consumes input or moves from KeyValueSeparator /
+ParseOpen to a state that does). -/
+theorem C01_parse_total (input : Bytes) :
+    (∃ T b, parse input = .ok T b) ∨ (∃ e, parse input = .err e) :=
+  parse_total input
 
 /-
 Full statement (DESIGN §8 C01): `step st (w ++ d) = step st d` at EVERY point where the code
